@@ -47,6 +47,36 @@ _KNOWN = None
 _FETCHED = []
 
 
+def _normalise(tree):
+    """Source normal form shared by all rules: ``t = <expr>`` immediately
+    followed by ``return t`` (t used nowhere else in the function) reads as
+    ``return <expr>``."""
+    for fn in ast.walk(tree):
+        if not isinstance(fn, (ast.FunctionDef, ast.AsyncFunctionDef)):
+            continue
+        uses = {}
+        for n in ast.walk(fn):
+            if isinstance(n, ast.Name):
+                uses[n.id] = uses.get(n.id, 0) + 1
+        for holder in ast.walk(fn):
+            for field in ("body", "orelse", "finalbody"):
+                body = getattr(holder, field, None)
+                if not (isinstance(body, list) and len(body) >= 2):
+                    continue
+                a, b = body[-2], body[-1]
+                if isinstance(a, ast.Assign) and len(a.targets) == 1 and \
+                        isinstance(a.targets[0], ast.Name) and \
+                        isinstance(b, ast.Return) and \
+                        isinstance(b.value, ast.Name) and \
+                        b.value.id == a.targets[0].id and \
+                        uses.get(b.value.id) == 2:
+                    r = ast.Return(value=a.value)
+                    ast.copy_location(r, a)
+                    r.end_lineno = getattr(b, "end_lineno", None)
+                    body[-2:] = [r]
+    return tree
+
+
 # --------------------------------------------------------------------------
 # Program model
 # --------------------------------------------------------------------------
@@ -55,7 +85,7 @@ class Module(object):
         self.name = name
         self.path = path
         self.src = src
-        self.tree = ast.parse(src, filename=path)
+        self.tree = _normalise(ast.parse(src, filename=path))
         self.lines = src.splitlines()
         self.defs = {}      # qualname -> FunctionDef/ClassDef
         self.imports = {}   # local name -> dotted target ("pkg.mod" or
